@@ -1,5 +1,5 @@
 //! Payload classes (one Kani harness per concrete instantiation).
-pub const NTAGS: usize = 8;
+pub const NTAGS: usize = 12;
 /// drops observed per tag (droppable classes only)
 pub static mut DROPS: [u8; NTAGS] = [0; NTAGS];
 
